@@ -1,4 +1,4 @@
-(* Token.v — POST /token (five grants minus jwt-bearer), /introspect, /revoke,
+(* Token.v — POST /token (the five grants, jwt-bearer included), /introspect, /revoke,
    /userinfo and the provider's TokenInfo helpers, transcribed statement by
    statement from internal/token/*.go and internal/userinfo/util.go (tree with
    the fix: commits applied). *)
@@ -133,6 +133,11 @@ Definition with_refresh (n : nat) (now : Z) (cfg : config) (c : client) (g : gse
 Definition hg_result (h : hg_reply) : option ecode :=
   match h with HgOk => None | HgDeny => Some EAccessDenied | HgFail => Some EInternalError end.
 
+(* the `assertion` parameter of a jwt-bearer request, as far as the handler can tell: the embedder's
+   HandleJWTBearerGrantAssertionFunc is an oracle like the other embedder answers *)
+Inductive assertion := AsNone (* parameter absent / empty *) | AsBad (* the embedder's function refuses it *)
+                     | AsOk (sub : string) (* the embedder's function answers this subject *).
+
 Record treq := mkTReq {
   t_cred : cred;
   t_bind : bind_in;
@@ -144,7 +149,8 @@ Record treq := mkTReq {
   t_auth_req : id;
   t_hg : hg_reply;
   t_ba : ba_reply;
-  t_resources : list string         (* the `resource` form parameters *)
+  t_resources : list string;        (* the `resource` form parameters *)
+  t_assertion : assertion           (* jwt-bearer only *)
 }.
 
 (* token.validatePkce / isPKCEValid *)
@@ -308,6 +314,69 @@ Definition cc_grant (w : world) (n : nat) (now : Z) (r : treq) : prog out :=
         | RFail => Ret (OErr EInternalError)
         | _ => Ret (tokens_out cfg tv (g <| g_active := "" |>) 0 "" [] (jwt_aud c GClientCredentials res))   (* no id token for this grant *)
         end)
+      end
+    end
+  end).
+
+(* ---- grant_type=urn:ietf:params:oauth:grant-type:jwt-bearer (internal/token/jwt_bearer.go) ---- *)
+(* makeAnonymousClient: the client used when the request names nobody.  Its id is the empty string,
+   its only grant type is jwt-bearer, its scopes are the ids of all the server's scopes joined by a
+   space; no authentication method, no response types, nothing else set (so: never a refresh token,
+   opaque access tokens under the harness's TokenOptionsFunc, public subject). *)
+Definition anonymous_client (cfg : config) : client :=
+  mkClient 0 false [GJwtBearer] [] [] (String.concat " " (map sc_id (cf_scopes cfg))) CibaNone
+           false false false false false false false 0 false.
+
+(* the client of a jwt-bearer request.  clientutil.Authenticated fails with ErrClientNotIdentified
+   exactly when the request carries no client identification at all (cr_id = 0: no client_id, no
+   basic user, no client_assertion); that one error is forgiven - the anonymous client is used -
+   unless WithJWTBearerGrantClientAuthnRequired is set.  Every other failure (unknown client, bad
+   credential) is invalid_client. *)
+Definition jwt_bearer_client (w : world) (cr : cred) : prog (option client) :=
+  bind (authenticated w cr) (fun oc =>
+    match oc with
+    | Some c => Ret (Some c)
+    | None => if andb (is_nil (cr_id cr)) (negb (cf_jwt_bearer_authn_required (w_cfg w)))
+              then Ret (Some (anonymous_client (w_cfg w))) else Ret None
+    end).
+
+Definition jwt_bearer_grant (w : world) (n : nat) (now : Z) (r : treq) : prog out :=
+  let cfg := w_cfg w in
+  (* generateGrant: the grant type must be enabled (validateJWTBearerGrantRequest repeats the check) *)
+  if negb (has_grant GJwtBearer (cf_grants cfg)) then Ret (OErr EUnsupportedGrantType) else
+  bind (jwt_bearer_client w (t_cred r)) (fun oc =>
+  match oc with
+  | None => Ret (OErr EInvalidClient)
+  | Some c =>
+    if negb (has_grant GJwtBearer (c_grants c)) then Ret (OErr EUnauthorizedClient) else
+    match validate_binding cfg c (t_bind r) no_opts with
+    | Some e => Ret (OErr e)
+    | None =>
+      match t_assertion r with
+      | AsNone => Ret (OErr EInvalidGrant)
+      | a =>
+        if negb (are_scopes_allowed (c_scopes c) (cf_scopes cfg) (t_scope r)) then Ret (OErr EInvalidScope) else
+        if negb (validate_resources cfg (cf_resources cfg) (t_resources r)) then Ret (OErr EInvalidTarget) else
+        (* ctx.HandleJWTBearerGrantAssertion *)
+        match a with
+        | AsOk sub =>
+          (* jwtBearerGrantOptions: granted = active = requested; the subject is the embedder's *)
+          let res := if cf_resource_enabled cfg then t_resources r else [] in
+          match hg_result (t_hg r) with
+          | Some e => Ret (OErr e)
+          | None =>
+            let '(tv, tid) := make_token n c GJwtBearer in
+            let g := with_refresh n now cfg c
+                       (new_grant n now cfg tid GJwtBearer sub (c_id c) (t_scope r) (t_scope r)
+                          (set_pop_jkt cfg (t_bind r)) (set_pop_x5t cfg (t_bind r)) res res) in
+            Do (GSave g) (fun rs =>
+            match rs with
+            | RFail => Ret (OErr EInternalError)
+            | _ => Ret (tokens_out cfg tv g (g_refresh g) "" [] (jwt_aud c GJwtBearer res))
+            end)
+          end
+        | _ => Ret (OErr EInvalidGrant)
+        end
       end
     end
   end).
